@@ -168,8 +168,11 @@ func zzH_C17_stream() {
 	n := zzInt("n", 0, maxn)
 	data := zzBytes("data", n)
 	var srcErr error = io.EOF
-	if zzBool("custom") {
+	switch zzPick("srcErrKind", 0, 2) {
+	case 1:
 		srcErr = zzCustomErr
+	case 2:
+		srcErr = &zzWrap{NewProtocolException(INVALID_DATA, "inner")} // a foreign error that wraps a protocol exception
 	}
 	r := NewBufferReader(bufiox.NewDefaultReader(&zzErrSrc{data: data, err: srcErr}))
 	var err error
